@@ -10,6 +10,7 @@ import traceback
 
 from . import core
 from .model import AnalysisError, Program
+from .nf import NFError
 
 
 def anchored_modules(prop):
@@ -63,7 +64,7 @@ def run_check(prop: str, tier: str, seed: int) -> int:
         check_wrappers(ctx, f"{prop}-ww", anchored)
         try:
             mod.check(ctx)
-        except AnalysisError as e:
+        except (AnalysisError, NFError) as e:
             if not ctx.has_new_violation():
                 raise
             # a positive finding stands even if later rules could not be evaluated
@@ -75,7 +76,7 @@ def run_check(prop: str, tier: str, seed: int) -> int:
 
             extra_cov, extra_exit = selftest.run_for_property(prop, seed)
         return core.finish(prop, ctx, level, t0, seed, extra_cov, extra_exit)
-    except AnalysisError as e:
+    except (AnalysisError, NFError) as e:
         return core.analysis_error(prop, tier, seed, t0, str(e), level)
     except RecursionError as e:
         return core.analysis_error(prop, tier, seed, t0, f"recursion limit: {e}", level)
